@@ -97,13 +97,16 @@ def models(ctx):
         run, prints = ctx.tlc_mc("linalg/LUModel.tla", "linalg/" + cfg % ctx.tier + ".cfg", timeout=1500,
                                  must_cover=("Col", "Pivot", "Scale"), keep_prints=True)
         replays += [json.loads(p[1]) for p in prints if p[0] == "REPLAY"]
-    # repaired design (a NaN pivot is an error): the error clause holds
-    ctx.tlc_mc("linalg/CholeskyModel.tla", "linalg/CholeskyModelMC_%s.cfg" % ctx.tier, timeout=1500,
-               must_cover=("Off", "Diag"))
-    # design as coded: the error clause fails exactly on the zero-pivot class (DefectExtent)
-    run, prints = ctx.tlc_mc("linalg/CholeskyModel.tla", "linalg/CholeskyModelMCcoded_%s.cfg" % ctx.tier, timeout=1500,
+    # cholesky_mut as it stands (reject iff d < 0 or d is NaN, commit a05df8f): properties + REPLAY lines
+    run, prints = ctx.tlc_mc("linalg/CholeskyModel.tla", "linalg/CholeskyModelMC_%s.cfg" % ctx.tier, timeout=1500,
                              must_cover=("Off", "Diag"), keep_prints=True)
     replays += [json.loads(p[1]) for p in prints if p[0] == "REPLAY"]
+    # the alternative repair `!(d > 0)`: the same properties hold, so neither repair is preferred
+    ctx.tlc_mc("linalg/CholeskyModel.tla", "linalg/CholeskyModelMCstrict_%s.cfg" % ctx.tier, timeout=1500,
+               must_cover=("Off", "Diag"))
+    # regression shape: the defect repaired by a05df8f (`d < 0` alone); DefectExtent = its exact extent
+    ctx.tlc_mc("linalg/CholeskyModel.tla", "linalg/CholeskyModelMCregress_%s.cfg" % ctx.tier, timeout=1500,
+               must_cover=("Off", "Diag"))
     return replays
 
 
@@ -159,6 +162,12 @@ def run(ctx):
     ctx.samples = (pick(lambda x: x["ev"] == "LU" and x["n"] == 3 and x["status"] == "ok" and x["inr"] and x["fin"])
                    + pick(lambda x: x["ev"] == "Chol" and x["status"] == "err")
                    + pick(lambda x: x["ev"] == "Solve" and x["m"] > x["n"] and x["status"] == "ok" and x["inr"] and x["fin"]))
+    ctx.extra["model_drift_explanation"] = (
+        "LUModel / CholeskyModel are exact (rational) transcriptions; the real cholesky rounds sqrt(d). On an input whose exact "
+        "elimination meets a zero pivot after an irrational square root (e.g. a11 = 2: sqrt(2)^2 != 2 in floating point) the real "
+        "pivot is +-tiny instead of 0, so the real call may reject (or accept) where the exact model does the opposite. All such "
+        "inputs are on the semidefinite boundary or are rejected either way; the property clauses are judged separately by trace "
+        "validation and are unaffected. Any other drift would mean the code no longer follows the modelled algorithm.")
     ctx.extra["clause_hits"] = all_hits
     ctx.extra["unconstrained_events"] = unc
     ctx.extra["out_of_range_events"] = oor
